@@ -5,13 +5,31 @@ COMMON_ASSUMPTIONS = [
     "loggers and string formatting of log/exception messages are stubbed with empty bodies (formatting is not the subject)",
 ]
 
-NOT_APPLICABLE = {
-    "C12": "quantifies over OS thread / socket schedules of socketserver serving real TCP connections; CrossHair executes one "
-           "Python thread deterministically and cannot make a schedule symbolic, and an SMT model of 'a single-threaded accept "
-           "loop' would only restate the assumption instead of checking the code (DESIGN.md section 7)",
-}
+NOT_APPLICABLE = {}
 
 PROPERTIES = {
+    "C12": {
+        "modules": ["harness.c12"],
+        "explanation": "Partial claim, schedule-bounded: 2 or 3 clients (the statement quantifies over 2..16), simulated sockets instead of TCP, "
+                       "preemption only at the decision points (select, device exchange, socket read / write) - a race that needs a "
+                       "preemption inside other code, kernel-level socket behaviour and forking servers are outside the claim.",
+        "assumptions": COMMON_ASSUMPTIONS + [
+            "`socket`, `_ServerSelector` and `os` inside the standard-library socketserver module are replaced by an in-memory listening "
+            "socket / connection sockets / selector (the socketserver classes themselves - serve_forever, process_request, "
+            "StreamRequestHandler, ThreadingMixIn if the code uses it - are the real ones)",
+            "threads started by the code under test are real threads run one at a time between decision points by the harness' scheduler; "
+            "a thread that blocks anywhere else (lock, Event) is taken as not runnable until it reaches a decision point",
+            "all clients have connected and sent their complete request line before the server starts accepting (the 'simultaneously "
+            "connected' situation); clients that connect later, partial lines and disconnecting clients are outside the bound",
+            "device = sim/ledger.py with 40-byte chunk requests (authorized sign: about 30 exchanges); requests are catalogue entries, the reference "
+            "for each order is the same requests served one after the other by a fresh manager",
+        ],
+        "level_text": "bounded symbolic exploration of schedules: the schedule is a vector of 10 solver variables consumed at the decision "
+                      "points of the real server code; oracle = linearisability with contiguous device blocks against the sequential runs",
+        "level_note": "trusted: CrossHair/z3, the simulated socket layer and scheduler, the simulated device",
+        "technique": "CrossHair symbolic execution of the real accept loop / request handler with solver-chosen thread schedules "
+                     "(controlled scheduler over real threads), z3",
+    },
     "C15": {
         "modules": ["harness.c15"],
         "explanation": "Partial claim: the plumbing between gathering and verification. That ECDSA / SHA-256 / X.509 reject altered data "
